@@ -428,7 +428,7 @@ def random_body(case):
 def plan(tier):
     shards = [{"name": "exh%d" % i, "type": "exh", "i": i, "of": 12, "find_rots": 1 if tier == "quick" else 6}
               for i in range(12)]
-    n, size = (25, 60) if tier == "quick" else (1200, 200)
+    n, size = (25, 60) if tier == "quick" else (5000, 200)
     shards += [{"name": "rnd%d" % i, "type": "rnd", "n": n, "size": size} for i in range(4)]
     return shards
 
